@@ -398,6 +398,17 @@ func (s *Sim) deliver(n *MNode) error {
 	if first {
 		n.DelivStep = s.CurStep
 	}
+	// the two-hour rule is judged by the node's clock at delivery: re-evaluate it now for blocks near the limit
+	if d := int64(n.Block.Header.Time) - (time.Now().Unix() + consensus.MaxFutureBlockTime); d > -300 && d < 300 && n.state == 0 || n.CheckErr != nil && n.CheckErr.Error() == "time-too-new" && first {
+		if n.CheckErr == nil || n.CheckErr.Error() == "time-too-new" {
+			if e := consensus.CheckHeader(&n.Block.Header, n.Parent.Idx, s.P, time.Now().Unix()); e != nil {
+				n.CheckErr = e
+			} else {
+				n.CheckErr = consensus.CheckBlock(n.Block, n.Parent.Idx, s.P)
+			}
+			n.state = 0
+		}
+	}
 	if s.Node == nil {
 		return s.deliverModelOnly(n, oldTip, parentPresent, wasPresent, first)
 	}
@@ -546,6 +557,9 @@ func (s *Sim) settle(n, oldTip *MNode, gerr error, what string, fuzzy bool) erro
 		if !isAncestor(oldTip, best) {
 			s.Reorgs++
 			s.label("reorg")
+			if best.Idx.Height < oldTip.Idx.Height {
+				s.label("reorg-to-shorter-branch")
+			}
 		}
 	}
 	heavier := n.Idx.InvWork.Cmp(oldTip.Idx.InvWork) > 0
@@ -680,6 +694,7 @@ type pending struct {
 }
 
 type bctx struct {
+	bad, badPos int // position of the input built to fail (addTx with validLast=false)
 	pendingSign []pending
 	s        *Sim
 	parent   *MNode
@@ -763,7 +778,8 @@ func (c *bctx) outScript(o OutSpec) []byte {
 	}
 }
 
-// addTx builds one transaction from a spec; validLast=false makes the last input's script fail.
+// addTx builds one transaction from a spec; validLast=false makes one input's script fail (the input at
+// position c.badPos modulo the input count - first, middle or last).
 func (c *bctx) addTx(ts TxSpec, validLast bool) *wire.Tx {
 	tx := &wire.Tx{Version: 2}
 	if ts.Ver != 0 {
@@ -788,19 +804,24 @@ func (c *bctx) addTx(ts TxSpec, validLast bool) *wire.Tx {
 	if len(coins) == 0 {
 		return nil
 	}
-	if !validLast && !c.s.B.Breakable(coins[len(coins)-1].coin.Script) {
-		// need a breakable coin in the last position
-		found := false
-		for i, x := range c.list {
-			if c.s.B.Breakable(x.coin.Script) {
-				coins = append(coins, x)
-				c.list = append(c.list[:i], c.list[i+1:]...)
-				found = true
-				break
+	c.bad = -1
+	if !validLast {
+		c.bad = mod(c.badPos, len(coins))
+		if !c.s.B.Breakable(coins[c.bad].coin.Script) {
+			// need a breakable coin at that position
+			found := false
+			for i, x := range c.list {
+				if c.s.B.Breakable(x.coin.Script) {
+					c.list[i] = coins[c.bad] // hand the unbreakable one back
+					coins[c.bad] = x
+					found = true
+					break
+				}
 			}
-		}
-		if !found {
-			validLast = true
+			if !found {
+				validLast = true
+				c.bad = -1
+			}
 		}
 	}
 	var in uint64
@@ -867,21 +888,21 @@ func (c *bctx) finishTx(tx *wire.Tx, coins []cand, validLast bool) {
 		spent[i] = wire.TxOut{Value: x.coin.Value, PkScript: x.coin.Script}
 	}
 	for i, x := range coins {
-		v := validLast || i != len(coins)-1
+		v := validLast || i != c.bad
 		if !c.s.B.Spend(tx, i, x.coin.Script, v) {
 			panic("sim: cannot build spend")
 		}
 	}
 	for i, x := range coins {
 		if c.s.B.Signed(x.coin.Script) {
-			if !c.s.B.SpendSigned(tx, i, spent, validLast || i != len(coins)-1) {
+			if !c.s.B.SpendSigned(tx, i, spent, validLast || i != c.bad) {
 				panic("sim: cannot sign")
 			}
 		}
 	}
 	id := tx.TxID()
 	for i := range coins {
-		c.s.B.Valid[consensus.OutKey(id, uint32(i))] = validLast || i != len(coins)-1
+		c.s.B.Valid[consensus.OutKey(id, uint32(i))] = validLast || i != c.bad
 	}
 	c.txs = append(c.txs, tx)
 	for j, o := range tx.Out {
